@@ -146,8 +146,10 @@ inductive Step (α : Type) (K : Nat) where
   | error (e : PRes Unit)      -- a nom error (never `ok`)
   | panic (site : String)
 
-def ofErr {β : Type} (K : Nat) : PRes β → Step α K
-  | .ok _ _ => .error .err
+/-- `let (rest, v) = p(input)?; k(rest, v)`: a nom error leaves the record parser -/
+def stepOf {β : Type} (K : Nat) (p : PRes β) (k : Bytes → β → Step α K) : Step α K :=
+  match p with
+  | .ok rest v => k rest v
   | .err => .error .err
   | .fail => .error .fail
   | .incomplete => .error .incomplete
@@ -155,52 +157,33 @@ def ofErr {β : Type} (K : Nat) : PRes β → Step α K
 /-- one iteration of `loop { match parse_tag(input)?.1 { … } }` -/
 def recordStep (A : Alphabet) (conv : Bytes → Option α) (zero : α) (sp : Parser Bytes)
     (r : TRecord α A.K) (i : Bytes) : Step α A.K :=
-  match parseTag i with
-  | .ok _ tg =>
-    let field (a b : UInt8) (upd : Bytes → TRecord α A.K) : Step α A.K :=
-      match tagLine a b i with
-      | .ok rest line => .continue rest (upd (trim line))
-      | e => ofErr A.K e
-    if tg = t 0x41 0x43 then field 0x41 0x43 fun v => { r with accession := some v }
-    else if tg = t 0x42 0x41 then field 0x42 0x41 fun _ => r
-    else if tg = t 0x42 0x53 then field 0x42 0x53 fun _ => r
-    else if tg = t 0x42 0x46 then field 0x42 0x46 fun _ => r
+  stepOf A.K (parseTag i) fun _ tg =>
+    if tg = t 0x41 0x43 then
+      stepOf A.K (tagLine 0x41 0x43 i) fun rest line => .continue rest { r with accession := some (trim line) }
+    else if tg = t 0x42 0x41 then stepOf A.K (tagLine 0x42 0x41 i) fun rest _ => .continue rest r
+    else if tg = t 0x42 0x53 then stepOf A.K (tagLine 0x42 0x53 i) fun rest _ => .continue rest r
+    else if tg = t 0x42 0x46 then stepOf A.K (tagLine 0x42 0x46 i) fun rest _ => .continue rest r
     else if tg = t 0x43 0x43 then
-      match many1 (tagLine 0x43 0x43) i with
-      | .ok rest _ => .continue rest r
-      | e => ofErr A.K e
-    else if tg = t 0x43 0x4F then field 0x43 0x4F fun _ => r
-    else if tg = t 0x44 0x45 then field 0x44 0x45 fun v => { r with description := some v }
-    else if tg = t 0x44 0x54 then
-      match parseDate i with
-      | .ok rest _ => .continue rest r
-      | e => ofErr A.K e
-    else if tg = t 0x49 0x44 then field 0x49 0x44 fun v => { r with id := some v }
-    else if tg = t 0x4E 0x41 then field 0x4E 0x41 fun v => { r with name := some v }
+      stepOf A.K (many1 (tagLine 0x43 0x43) i) fun rest _ => .continue rest r
+    else if tg = t 0x43 0x4F then stepOf A.K (tagLine 0x43 0x4F i) fun rest _ => .continue rest r
+    else if tg = t 0x44 0x45 then
+      stepOf A.K (tagLine 0x44 0x45 i) fun rest line => .continue rest { r with description := some (trim line) }
+    else if tg = t 0x44 0x54 then stepOf A.K (parseDate i) fun rest _ => .continue rest r
+    else if tg = t 0x49 0x44 then
+      stepOf A.K (tagLine 0x49 0x44 i) fun rest line => .continue rest { r with id := some (trim line) }
+    else if tg = t 0x4E 0x41 then
+      stepOf A.K (tagLine 0x4E 0x41 i) fun rest line => .continue rest { r with name := some (trim line) }
     else if tg = t 0x50 0x30 ∨ tg = t 0x50 0x4F then
-      match parseAlphabetWith sp A i with
-      | .ok rest symbols =>
-        match many1 (parseRow conv symbols.length) rest with
-        | .ok rest' counts =>
+      stepOf A.K (parseAlphabetWith sp A i) fun rest symbols =>
+        stepOf A.K (many1 (parseRow conv symbols.length) rest) fun rest' counts =>
           match fillRows ((Mat.empty : Mat α A.K).resize counts.length zero) symbols 0 counts with
           | some m => .continue rest' { r with data := some m }
           | none => .panic "parse.rs: matrix[i][s.as_index()]"
-        | e => ofErr A.K e
-      | e => ofErr A.K e
-    else if tg = t 0x52 0x4E then
-      match parseReference i with
-      | .ok rest _ => .continue rest r
-      | e => ofErr A.K e
+    else if tg = t 0x52 0x4E then stepOf A.K (parseReference i) fun rest _ => .continue rest r
     else if tg = t 0x2F 0x2F then
-      match preceded (tag (t 0x2F 0x2F)) (alt parseLine eof) i with
-      | .ok rest _ => .finish rest r
-      | e => ofErr A.K e
-    else if tg = t 0x58 0x58 then
-      match parseLine i with
-      | .ok rest _ => .continue rest r
-      | e => ofErr A.K e
+      stepOf A.K (preceded (tag (t 0x2F 0x2F)) (alt parseLine eof) i) fun rest _ => .finish rest r
+    else if tg = t 0x58 0x58 then stepOf A.K (parseLine i) fun rest _ => .continue rest r
     else .panic "parse.rs: unreachable!() in parse_record"
-  | e => ofErr A.K e
 
 /-- result of `parse_record` -/
 inductive RecRes (α : Type) (K : Nat) where
